@@ -884,16 +884,16 @@ class CompressionStress(Bounded):
     title = ("messages whose 2 questions and 13 records draw every name from a small pool with shared suffixes and "
              "case variants: the compressed encoding is read correctly by the independent decoder and decodes to an "
              "equal message")
-    scope = ("every 4-tuple (n1,n2,n3,n4) over the pool {root, a, A, b, a.b, A.b, a.B, b.a.b} (thorough adds a.a, "
-             "a.a.a, ab, b.ab, a label holding the bytes C0 0C) placed in question names, owner names, compressible "
+    scope = ("every 4-tuple (n1,n2,n3,n4) over the pool {root, a, A, b, a.b, A.b, a.B, b.a.b, a.a, 'C0 0C'.b (a label "
+             "holding the bytes of a pointer)} (thorough adds a.a.a, ab, b.ab) placed in question names, owner names, compressible "
              "rdata names (CNAME MX SOA NS RP MINFO AFSDB PTR TSIG) and uncompressed ones (SRV A6 NAPTR); exhaustive")
     functions = ["Name.encode", "Name.decode", "Message.encode", "Message.decode", "RRHeader.encode",
                  "Query.encode", "Record_SOA.encode", "Record_MX.encode", "SimpleRecord.encode"]
 
     def cases(self, tier, rng):
-        pool = [b"", b"a", b"A", b"b", b"a.b", b"A.b", b"a.B", b"b.a.b"]
+        pool = [b"", b"a", b"A", b"b", b"a.b", b"A.b", b"a.B", b"b.a.b", b"a.a", b"\xc0\x0c.b"]
         if tier != "quick":
-            pool += [b"a.a", b"a.a.a", b"ab", b"b.ab", b"\xc0\x0c.b"]
+            pool += [b"a.a.a", b"ab", b"b.ab"]
         for t in itertools.product(pool, repeat=4):
             yield t
 
@@ -1077,14 +1077,15 @@ class Truncation(Bounded):
              "unchanged and round-trips; below it the encoding fits, carries TC, and both decoders read a prefix of "
              "the original questions and records")
     scope = ("4 fixed messages (all sections populated with compression; questions only; TXT/SPF/HINFO/SOA/NULL/"
-             "unknown/OPT; SRV/NAPTR/A6/TSIG/WKS/SSHFP/MINFO/RP/AFSDB) x every maxSize in 12..size+1; thorough adds "
-             "40 seeded random messages x every maxSize; limits below the 12-byte header are out of scope")
+             "unknown/OPT; SRV/NAPTR/A6/TSIG/WKS/SSHFP/MINFO/RP/AFSDB) x every maxSize in 12..size+1; plus 8 (thorough "
+             "60) seeded random messages of <= 1500 bytes x every maxSize; limits below the 12-byte header are out "
+             "of scope")
     functions = ["Message.encode", "Message.toStr", "Message.decode", "Message.parseRecords"]
 
     def cases(self, tier, rng):
         bases = list(_TRUNC_BASES)
-        if tier != "quick":
-            while len(bases) < len(_TRUNC_BASES) + 40:
+        if True:
+            while len(bases) < len(_TRUNC_BASES) + (8 if tier == "quick" else 60):
                 s = random_spec(rng)
                 try:
                     if len(build_message(s, limit=0).toStr()) <= 1500:
@@ -1108,13 +1109,13 @@ class RandomMessages(Bounded):
     title = ("seeded random messages over all record classes, unknown types and OPT, names drawn from a growing pool "
              "(reuse, case flips, new label + old suffix, parent of an old name), random size limit: round trip / "
              "truncation contract as for the exhaustive classes")
-    scope = ("quick 1200, thorough 25000 messages; 0..3 questions, 0..5 records per section, any header; size limit "
+    scope = ("quick 4000, thorough 40000 messages; 0..3 questions, 0..5 records per section, any header; size limit "
              "absent (half of the cases) or uniform in 12..size+20; SOA intervals <= 2^31-1; not exhaustive (random)")
     functions = ["Message.encode", "Message.decode", "Message.parseRecords", "Record_*.encode", "Record_*.decode",
                  "_OPTHeader.encode", "_OPTHeader.fromRRHeader"]
 
     def cases(self, tier, rng):
-        for _ in range(1200 if tier == "quick" else 25000):
+        for _ in range(4000 if tier == "quick" else 40000):
             spec = random_spec(rng)
             if rng.randrange(2):
                 try:
